@@ -67,8 +67,9 @@ def run(ctx):
             pairs.add(s * 512 + rw)
     for _ in range(ctx.pick(24, 100)):
         pairs.add(rng.randrange(512) * 512 + rng.randrange(512))
-    g = ctx.tlc("Launch_Gen", cfg="CONSTANTS\n  C04Pairs = {%s}\n  C07Bases = {}\nINIT Init\nNEXT Next\n" % ",".join(map(str, sorted(pairs))),
-                timeout=600, count=False)
+    g, _, _ = lc.par(lambda: ctx.tlc("Launch_Gen", cfg="CONSTANTS\n  C04Pairs = {%s}\n  C07Bases = {}\nINIT Init\nNEXT Next\n" % ",".join(map(str, sorted(pairs))),
+                                      timeout=600, count=False),
+                     lambda: ctx.build_vdrive("launch"), lambda: lc.build_probe(ctx))     # build while TLC generates
     ctx.tlc_ok("Launch_Gen", g)
     cases = ctx.read_ndjson(os.path.join(g.dir, "c04cases.ndjson"))
     cases.sort(key=lambda c: (c["s"], c["r"]))
